@@ -7,8 +7,8 @@ package momentum
 
 //@ func AwesomeOscillatorStrategy.Compute
 //@ requires a.AwesomeOscillator.ShortSma.Period >= 1 && a.AwesomeOscillator.ShortSma.Period <= a.AwesomeOscillator.LongSma.Period && consumed(snapshots) == 0
-//@ ensures[C06] "input-high" len(arg(AwesomeOscillator_Compute, 0, 0)) == len(snapshots) && (forall k :: 0 <= k && k < len(snapshots) ==> arg(AwesomeOscillator_Compute, 0, 0)[k] == snapshots[k].High)
-//@ ensures[C06] "input-low" len(arg(AwesomeOscillator_Compute, 0, 1)) == len(snapshots) && (forall k :: 0 <= k && k < len(snapshots) ==> arg(AwesomeOscillator_Compute, 0, 1)[k] == snapshots[k].Low)
+//@ guarantees[C06] "input-high" len(arg(AwesomeOscillator_Compute, 0, 0)) == len(snapshots) && (forall k :: 0 <= k && k < len(snapshots) ==> arg(AwesomeOscillator_Compute, 0, 0)[k] == snapshots[k].High)
+//@ guarantees[C06] "input-low" len(arg(AwesomeOscillator_Compute, 0, 1)) == len(snapshots) && (forall k :: 0 <= k && k < len(snapshots) ==> arg(AwesomeOscillator_Compute, 0, 1)[k] == snapshots[k].Low)
 //@ ensures[C05] "len" len(snapshots) >= (a.AwesomeOscillator.IdlePeriod()) ==> len(result) == len(snapshots)
 //@ ensures[C05] "len-short" len(result) >= len(snapshots)
 //@ ensures[C05] "warmup-hold" forall kk :: 0 <= kk && kk < min((a.AwesomeOscillator.IdlePeriod()), len(result)) ==> result[kk] == 0
@@ -19,9 +19,9 @@ package momentum
 
 //@ func RsiStrategy.Compute
 //@ requires r.Rsi.Rma.Period >= 1 && consumed(snapshots) == 0
-//@ ensures[C06] "input-close" len(arg(Rsi_Compute, 0, 0)) == len(snapshots) && (forall k :: 0 <= k && k < len(snapshots) ==> arg(Rsi_Compute, 0, 0)[k] == snapshots[k].Close)
-//@ ensures[C06] "below-buy-threshold-buys" forall k :: 0 <= k && k < len(res(Rsi_Compute, 0)) ==> (r.BuyAt < r.SellAt && res(Rsi_Compute, 0)[k] < r.BuyAt ==> result[k + r.Rsi.IdlePeriod()] == 1)
-//@ ensures[C06] "above-sell-threshold-sells" forall k :: 0 <= k && k < len(res(Rsi_Compute, 0)) ==> (r.BuyAt < r.SellAt && res(Rsi_Compute, 0)[k] > r.SellAt ==> result[k + r.Rsi.IdlePeriod()] == 0 - 1)
+//@ guarantees[C06] "input-close" len(arg(Rsi_Compute, 0, 0)) == len(snapshots) && (forall k :: 0 <= k && k < len(snapshots) ==> arg(Rsi_Compute, 0, 0)[k] == snapshots[k].Close)
+//@ guarantees[C06] "below-buy-threshold-buys" forall k :: 0 <= k && k < len(res(Rsi_Compute, 0)) ==> (r.BuyAt < r.SellAt && res(Rsi_Compute, 0)[k] < r.BuyAt ==> result[k + r.Rsi.IdlePeriod()] == 1)
+//@ guarantees[C06] "above-sell-threshold-sells" forall k :: 0 <= k && k < len(res(Rsi_Compute, 0)) ==> (r.BuyAt < r.SellAt && res(Rsi_Compute, 0)[k] > r.SellAt ==> result[k + r.Rsi.IdlePeriod()] == 0 - 1)
 //@ ensures[C05] "len" len(snapshots) >= (r.Rsi.IdlePeriod()) ==> len(result) == len(snapshots)
 //@ ensures[C05] "len-short" len(result) >= len(snapshots)
 //@ ensures[C05] "warmup-hold" forall kk :: 0 <= kk && kk < min((r.Rsi.IdlePeriod()), len(result)) ==> result[kk] == 0
@@ -32,9 +32,9 @@ package momentum
 
 //@ func StochasticRsiStrategy.Compute
 //@ requires s.StochasticRsi.Rsi.Rma.Period >= 1 && s.StochasticRsi.Min.Period >= 1 && s.StochasticRsi.Max.Period == s.StochasticRsi.Min.Period && consumed(snapshots) == 0
-//@ ensures[C06] "input-close" len(arg(StochasticRsi_Compute, 0, 0)) == len(snapshots) && (forall k :: 0 <= k && k < len(snapshots) ==> arg(StochasticRsi_Compute, 0, 0)[k] == snapshots[k].Close)
-//@ ensures[C06] "below-buy-threshold-buys" forall k :: 0 <= k && k < len(res(StochasticRsi_Compute, 0)) ==> (s.BuyAt < s.SellAt && res(StochasticRsi_Compute, 0)[k] < s.BuyAt ==> result[k + s.StochasticRsi.IdlePeriod()] == 1)
-//@ ensures[C06] "above-sell-threshold-sells" forall k :: 0 <= k && k < len(res(StochasticRsi_Compute, 0)) ==> (s.BuyAt < s.SellAt && res(StochasticRsi_Compute, 0)[k] > s.SellAt ==> result[k + s.StochasticRsi.IdlePeriod()] == 0 - 1)
+//@ guarantees[C06] "input-close" len(arg(StochasticRsi_Compute, 0, 0)) == len(snapshots) && (forall k :: 0 <= k && k < len(snapshots) ==> arg(StochasticRsi_Compute, 0, 0)[k] == snapshots[k].Close)
+//@ guarantees[C06] "below-buy-threshold-buys" forall k :: 0 <= k && k < len(res(StochasticRsi_Compute, 0)) ==> (s.BuyAt < s.SellAt && res(StochasticRsi_Compute, 0)[k] < s.BuyAt ==> result[k + s.StochasticRsi.IdlePeriod()] == 1)
+//@ guarantees[C06] "above-sell-threshold-sells" forall k :: 0 <= k && k < len(res(StochasticRsi_Compute, 0)) ==> (s.BuyAt < s.SellAt && res(StochasticRsi_Compute, 0)[k] > s.SellAt ==> result[k + s.StochasticRsi.IdlePeriod()] == 0 - 1)
 //@ ensures[C05] "len" len(snapshots) >= (s.StochasticRsi.IdlePeriod()) ==> len(result) == len(snapshots)
 //@ ensures[C05] "len-short" len(result) >= len(snapshots)
 //@ ensures[C05] "warmup-hold" forall kk :: 0 <= kk && kk < min((s.StochasticRsi.IdlePeriod()), len(result)) ==> result[kk] == 0
@@ -45,8 +45,8 @@ package momentum
 
 //@ func TripleRsiStrategy.Compute
 //@ requires t.Rsi.Rma.Period >= 1 && t.Sma.Period >= 1 && t.Sma.IdlePeriod() >= t.Rsi.IdlePeriod() && t.DownDays >= 1 && consumed(snapshots) == 0
-//@ ensures[C06] "input-close" len(arg(Rsi_Compute, 0, 0)) == len(snapshots) && (forall k :: 0 <= k && k < len(snapshots) ==> arg(Rsi_Compute, 0, 0)[k] == snapshots[k].Close)
-//@ ensures[C06] "input-close" len(arg(Sma_Compute, 0, 0)) == len(snapshots) && (forall k :: 0 <= k && k < len(snapshots) ==> arg(Sma_Compute, 0, 0)[k] == snapshots[k].Close)
+//@ guarantees[C06] "input-close" len(arg(Rsi_Compute, 0, 0)) == len(snapshots) && (forall k :: 0 <= k && k < len(snapshots) ==> arg(Rsi_Compute, 0, 0)[k] == snapshots[k].Close)
+//@ guarantees[C06] "input-close" len(arg(Sma_Compute, 0, 0)) == len(snapshots) && (forall k :: 0 <= k && k < len(snapshots) ==> arg(Sma_Compute, 0, 0)[k] == snapshots[k].Close)
 //@ ensures[C05] "len" len(snapshots) >= (t.IdlePeriod()) ==> len(result) == len(snapshots)
 //@ ensures[C05] "len-short" len(result) >= len(snapshots)
 //@ ensures[C05] "warmup-hold" forall kk :: 0 <= kk && kk < min((t.IdlePeriod()), len(result)) ==> result[kk] == 0
